@@ -157,7 +157,7 @@ func checkC13(c *Ctx) {
 	}
 	scens := []scen{{"pair-setup", 0}, {"pair-setup", 1}, {"pair-setup", 2}, {"pair-verify", 0}, {"pair-verify", 1},
 		{"json-verified", 0}, {"json-unverified", 0}, {"pairings-verified", 0}}
-	reps := c.Pick(2, 12)
+	reps := c.Pick(2, 40)
 	total := len(scens) * reps
 	parallel(total, func(k int) {
 		sc := scens[k%len(scens)]
